@@ -189,6 +189,34 @@ pub fn dedup_ground() -> EvalResult {
             }
         }
     }
+    // the value clause at every magnitude: coins around 2^7 .. 2^63 and at the top of the range, creating exactly their
+    // value (one output, or two that add up), one mojo less, or a single mojo
+    {
+        let canon = |v: u64| -> Vec<u8> { if v == 0 { return vec![]; } let b = v.to_be_bytes(); let mut i = 0; while b[i] == 0 { i += 1; } let mut o = vec![]; if b[i] & 0x80 != 0 { o.push(0); } o.extend_from_slice(&b[i..]); o };
+        let out = |ph: u8, v: u64| cond(&[vec![51], vec![ph; 32], canon(v)]);
+        for amount in [0x7fu64, 0x80, 0xffff, 0x7fff_ffff, 0x8000_0000, 0xffff_ffff, 0x7fff_ffff_ffff_ffff, 0x8000_0000_0000_0000, 0x8000_0000_0000_0001, u64::MAX - 1, u64::MAX] {
+            let shapes: Vec<(&str, Vec<Vec<u8>>, bool)> = vec![
+                ("exact", vec![out(9, amount)], true),
+                ("split", vec![out(9, amount - 1), out(8, 1)], true),
+                ("split-halves", vec![out(9, amount / 2), out(8, amount - amount / 2)], true),
+                ("one-less", vec![out(9, amount - 1)], false),
+                ("split-one-less", vec![out(9, amount - 2), out(8, 1)], false),
+                ("single-mojo", vec![out(9, 1)], amount == 1),
+                ("half", vec![out(9, amount / 2)], false),
+            ];
+            for (shape, conds, want) in shapes {
+                res.obligations += 1;
+                let id = format!("value-{amount:#x}/{shape}");
+                match run_coins(&[(vec![1u8; 32], amount, conds)]) {
+                    Err(e) => fail(&mut res, format!("{id}/accepted"), format!("coin of {amount} mojos, outputs {shape}: the bundle is rejected ({e}); it is valid")),
+                    Ok(flags) => {
+                        let dedup = flags[0] & ELIGIBLE_FOR_DEDUP != 0;
+                        if dedup == want { res.discharged += 1; } else { fail(&mut res, format!("{id}/flag"), format!("coin of {amount} mojos, outputs {shape}: dedup flag = {dedup}, the rule (created value >= consumed value, no signature or message) says {want}")); }
+                    }
+                }
+            }
+        }
+    }
     // fingerprints: identical lists agree, different lists differ (all on the same coin)
     for (i, (n1, c1, f1)) in eligible.iter().enumerate() {
         res.obligations += 1;
